@@ -78,6 +78,14 @@ def run(ctx):
     for cfg in ("MCHotColdBadWrite.cfg", "MCHotColdBadRemove.cfg"):
         r = vlib.tlc("MCHotCold.tla", cfg, workers=1, timeout=300, metadir=os.path.join(ctx.out, "mc-bad"))
         ctx.negative_control(r.violated == "HotComplete", "model %s must violate HotComplete" % cfg)
+    if not q:
+        # unbounded in the number of operations: HotComplete + the promise of the pending half-operation is inductive (Apalache)
+        ok = vlib.apalache_inductive(ctx, "HotColdInd", subst={"WriteHotFirst \\in BOOLEAN /\\ RemoveColdFirst \\in BOOLEAN": "WriteHotFirst = TRUE /\\ RemoveColdFirst = TRUE"})
+        if ok != (True, True):
+            raise vlib.ToolError("HotColdInd: the invariant is not inductive for the library's write / remove order: %s" % (ok,))
+        for a, b in (("FALSE", "TRUE"), ("TRUE", "FALSE")):
+            bad = vlib.apalache_inductive(ctx, "HotColdInd", subst={"WriteHotFirst \\in BOOLEAN /\\ RemoveColdFirst \\in BOOLEAN": "WriteHotFirst = %s /\\ RemoveColdFirst = %s" % (a, b)}, neg=True)
+            ctx.negative_control(bad[1] is False, "Apalache: the unsafe write / remove order must break the induction step")
     progs = programs(ctx.seed, 30 if q else 2000)
     by_id = {p["id"]: p for p in progs}
     pf = os.path.join(ctx.out, "programs.ndjson")
